@@ -812,6 +812,100 @@ pub fn member_names() -> Vec<String> {
     v
 }
 
+// ------------------------------------------------------------------------------------------
+// unknown members whose VALUE a JSON reader can skip but not hold: escapes of lone surrogates,
+// numbers beyond every machine range, nesting deeper than the reader's recursion limit.  An ignored
+// member is never looked into, so the document parses as without it.  These values have no
+// serde_json::Value form: they are spliced into the text, and the text and byte-reader routes are
+// driven (the owned-value route cannot be entered with them).
+/// Objects the parser walks member by member.  Entries of the lenient lists are excluded: the pinned
+/// tree buffers each entry (to be able to drop it), and a buffer cannot hold these values either –
+/// recorded as a limit in DESIGN.md, not judged.
+fn plain_object(path: &str) -> bool {
+    !path.rsplit('/').next().is_some_and(|l| l.parse::<usize>().is_ok())
+}
+fn raw_values() -> Vec<(String, String)> {
+    let mut v: Vec<(String, String)> = vec![
+        ("lone-high-surrogate".into(), r#""\ud83d""#.into()),
+        ("lone-low-surrogate".into(), r#""\udc00""#.into()),
+        ("two-high-surrogates".into(), r#""\ud83d\ud83d""#.into()),
+        ("surrogate-in-key".into(), r#"{"\ud83d":1}"#.into()),
+        ("surrogate-in-list".into(), r#"[1,"\udfff"]"#.into()),
+        ("huge-exponent".into(), "1e999".into()),
+        ("huge-negative-exponent".into(), "-1E+999".into()),
+        ("tiny-exponent".into(), "1e-999".into()),
+        ("huge-in-list".into(), "[0,1e400]".into()),
+        ("huge-in-object".into(), r#"{"a":{"b":1e400}}"#.into()),
+        ("long-integer".into(), "123456789012345678901234567890123456789012345678901234567890".into()),
+        ("long-negative-integer".into(), "-123456789012345678901234567890123456789012345678901234567890".into()),
+        ("long-fraction".into(), format!("0.{}", "1".repeat(400))),
+        ("nul-escape".into(), r#""\u0000""#.into()),
+    ];
+    for d in [100usize, 120, 126, 127, 128, 129, 200, 1000, 20000] {
+        v.push((format!("lists-{d}-deep"), format!("{}{}", "[".repeat(d), "]".repeat(d))));
+        v.push((format!("objects-{d}-deep"), format!("{}1{}", r#"{"a":"#.repeat(d), "}".repeat(d))));
+    }
+    v
+}
+fn raw_parse(kind: &str, text: &str) -> Result<[Result<String, String>; 2], String> {
+    fn two<T: serde::de::DeserializeOwned + std::fmt::Debug>(text: &str) -> [Result<String, String>; 2] {
+        [serde_json::from_str::<T>(text).map(|v| format!("{v:?}")).map_err(|e| e.to_string()), serde_json::from_reader::<_, T>(text.as_bytes()).map(|v| format!("{v:?}")).map_err(|e| e.to_string())]
+    }
+    par::catch(|| if kind == "create" { two::<CredentialCreationOptions>(text) } else { two::<CredentialRequestOptions>(text) })
+}
+fn raw_unknown_one(kind: &str, path: &str, what: &str, case: &Value) -> Vec<Finding> {
+    let mut fs = vec![];
+    let Some((_, raw)) = raw_values().into_iter().find(|(n, _)| n == what) else { return fs };
+    let doc = canonical(kind);
+    let Ok([Ok(base), _]) = raw_parse(kind, &doc.to_string()) else { return fs };
+    for first in [false, true] {
+        let mut d = doc.clone();
+        let Some(Value::Object(o)) = d.pointer_mut(path) else { return fs };
+        insert_at(o, if first { 0 } else { usize::MAX }, "zzUnknownMember", json!("@@RAW@@"));
+        let text = d.to_string().replace("\"@@RAW@@\"", &raw);
+        let place = if first { "first" } else { "last" };
+        let obj = if path.is_empty() { "/" } else { path };
+        match raw_parse(kind, &text) {
+            Err(p) => fs.push(Finding::new(format!("doc={kind}/kind=panic"), format!("unknown member with a {what} value, {place} in {obj}: parse panicked: {p}"), case.clone())),
+            Ok(rs) => {
+                for (route, r) in ["from_str", "from_reader"].iter().zip(rs) {
+                    match r {
+                        Err(e) => fs.push(Finding::new(format!("doc={kind}/kind=unknown-member-fails-the-parse"), format!("unknown member with a {what} value, {place} in {obj}, {route}: {e}"), case.clone())),
+                        Ok(got) if got != base => fs.push(Finding::new(format!("doc={kind}/kind=unknown-member-changes-the-value"), format!("unknown member with a {what} value, {place} in {obj}, {route}"), case.clone())),
+                        Ok(_) => {}
+                    }
+                }
+            }
+        }
+    }
+    fs
+}
+fn raw_unknown_members(stats: &mut Stats, threads: usize) {
+    let mut work: Vec<(String, String, String)> = vec![];
+    for kind in ["create", "get"] {
+        let doc = canonical(kind);
+        let mut objs = vec![];
+        object_paths(&doc, String::new(), &mut objs);
+        for (p, _) in objs {
+            if !plain_object(&p) {
+                continue;
+            }
+            for (n, _) in raw_values() {
+                work.push((kind.to_string(), p.clone(), n));
+            }
+        }
+    }
+    let st = par::sweep_cases(&work, threads, |(kind, path, what), st| {
+        let case = json!({"raw_unknown": {"doc": kind, "object": path, "value": what}});
+        for f in raw_unknown_one(kind, path, what, &case) {
+            st.finding(f);
+        }
+        st.case(&(kind, path, what), true, "unskippable-unknown-member");
+    });
+    stats.count("unholdable_unknown_member_cases", st.evaluations);
+    stats.merge(st);
+}
+
 fn named_members(stats: &mut Stats, threads: usize) {
     let names = member_names();
     let mut work: Vec<(String, String, String)> = vec![]; // (kind, object path, name)
@@ -1176,6 +1270,7 @@ pub fn run(ctx: &Ctx) -> Result<Run, String> {
     b64_identity(ctx, &mut stats);
     emitted(&mut stats);
     named_members(&mut stats, ctx.threads);
+    raw_unknown_members(&mut stats, ctx.threads);
     long_binary(&mut stats);
     long_text(&mut stats);
     after_failed_parses(&mut stats);
@@ -1218,6 +1313,9 @@ pub fn replay(ctx: &Ctx, case: &Value) -> Result<Vec<Finding>, String> {
         let mut st = Stats::new();
         long_binary(&mut st);
         return Ok(st.findings.into_values().map(|x| x.0).filter(|f| f.case == *case).collect());
+    }
+    if let Some(e) = case.get("raw_unknown") {
+        return Ok(raw_unknown_one(e["doc"].as_str().unwrap_or(""), e["object"].as_str().unwrap_or(""), e["value"].as_str().unwrap_or(""), case));
     }
     if let Some(e) = case.get("named_member") {
         return Ok(named_member_one(e["doc"].as_str().unwrap_or(""), e["object"].as_str().unwrap_or(""), e["name"].as_str().unwrap_or(""), case));
